@@ -40,6 +40,18 @@ var zzC03 = []zzScenario{
 		setup: []zzOp{zzH("/k", "GET"), zzH("/k/v/u", "GET"), zzH("/k/v/i/{id}", "POST"), zzH("/o", "GET")},
 		alpha: []zzOp{zzPCl("/k/v"), zzPCl("/k/v/"), zzPCl("/k/"), zzRm("/k"), zzRm("/k/v/u"), zzPCl("/k/v/i"), zzRm("/k/v/i/{id}"), zzH("/k/v", "PUT")},
 	},
+	{ // 6: a cleaned prefix that is itself a route ending at a node boundary (literal and parameter)
+		setup: []zzOp{zzH("/v", "GET"), zzH("/v/1", "GET"), zzH("/v/{z}", "POST"), zzH("/w/{k:\\d+}", "GET"), zzH("/w/{k:\\d+}/u", "GET")},
+		alpha: []zzOp{zzPCl("/v"), zzPCl("/v/"), zzPCl("/w/{k:\\d+}"), zzRm("/v"), zzRCl("/v/1"), zzH("/v/2", "GET"), zzPCl("/w/{k:\\d+}/")},
+	},
+	{ // 7: one removal prunes two levels below an indexed parent; the pruned branch sits first / in the middle
+		setup: []zzOp{zzH("/c/{id}", "GET"), zzH("/a", "GET"), zzH("/b", "GET"), zzH("/g/h/{i}", "PUT"), zzH("/d", "GET"), zzH("/e", "GET")},
+		alpha: []zzOp{zzRm("/c/{id}"), zzRm("/g/h/{i}"), zzRm("/a"), zzH("/c/x", "GET"), zzPCl("/g"), zzRCl("/c/{id}"), zzH("/f", "POST")},
+	},
+	{ // 8: literal siblings one of which starts with a non-ASCII byte; the index threshold is crossed upwards
+		setup: []zzOp{zzH("/t/a", "GET"), zzH("/t/b", "GET"), zzH("/t/\u4e2d", "GET"), zzH("/t/c", "GET")},
+		alpha: []zzOp{zzH("/t/d", "GET"), zzH("/t/{n}", "POST"), zzRm("/t/a"), zzH("/t/\u00e4", "GET"), zzRm("/t/\u4e2d"), zzH("/t/e", "PUT")},
+	},
 }
 
 // zzApply applies op to router and model; returns false when the op would be a
